@@ -115,9 +115,7 @@ Fixpoint acc_fields (look : N -> option acceptor) (cnt : option nat) (fuel : nat
           if mem_N k seen then None
           else match look k with
                | Some p => match p r with
-                           | Some r' => if (length r' <? length bs)%nat
-                                        then acc_fields look (match cnt with Some (S c) => Some c | _ => cnt end) f (k :: seen) r'
-                                        else None
+                           | Some r' => acc_fields look (match cnt with Some (S c) => Some c | _ => cnt end) f (k :: seen) r'
                            | None => None
                            end
                | None => None
@@ -177,8 +175,16 @@ Fixpoint acc (s : schema) {struct s} : acceptor :=
       | None => None
       end
   | SChoice alts => fun bs =>
-      let bs' := if has_disc 4 alts then strip258x2 bs else bs in       (* a tagged list where a list is an alternative *)
-      match peek_major bs' with Some m => acc_cl alts m bs' | None => None end
+      let direct := match peek_major bs with Some m => acc_cl alts m bs | None => None end in
+      match direct with
+      | Some r => Some r
+      | None =>
+          (* a tagged list (set tag 258) where a plain list is an alternative *)
+          if has_disc 4 alts then
+            let bs' := strip258x2 bs in
+            match peek_major bs' with Some m => if m =? 4 then acc_cl alts m bs' else None | None => None end
+          else None
+      end
   | STagChoice alts => fun bs => match lhead 6 bs with Some (Arg t, r) => acc_cl alts t r | _ => None end
   | SArrAny s' => fun bs => match lhead 4 (strip258x2 bs) with Some (a, r) => acc_items (acc s') a r | None => None end
   | SBBytes => fun bs =>
